@@ -53,7 +53,7 @@ func ParseDec(s string) (Dec, bool) {
 		for len(es) > 1 && es[0] == '0' {
 			es = es[1:]
 		}
-		if len(es) > 9 {
+		if len(es) > 17 {
 			return Dec{}, false
 		}
 		for _, c := range es {
